@@ -467,6 +467,48 @@ def rule_dial_address(ctx):
     ctx.ob(R, "source watch", True, "the receiver is self.gossip.validator_addrs.subscribe()" if subs else "undecided shape (not reported)")
 
 
+def rule_push_task(ctx):
+    R = "C18.10"
+    ctx.rule(R, "the per-connection push task: the state remembered as 'already sent to this peer' starts empty (the first push sends the whole book; the subscription is marked changed), and is only ever replaced by the very snapshot the sent difference was computed from - remembering anything newer (the live book) silently skips the announcements that arrived in between, and that peer never gets them")
+    bodies = []
+    for f in ctx.F.fns:
+        if f.in_testonly() or f.crate != NET or "/gossip/" not in f.file:
+            continue
+        T = ctx.T(f)
+        cs = T.calls()
+        if any(c["q"].endswith("rpc::Client::call") and any("push_validator_addrs" in f.ty(i).s for i in c["t"]["f"].get("ga", [])) for c in cs):
+            bodies.append(f)
+    ctx.floor(R, "push_validator_addrs client tasks", len(bodies), 1)
+    for f in bodies:
+        T = ctx.T(f)
+        olds = [l for l, ty in enumerate(f.locals) if ty.s == VA and any(d[0] == "c" and f.callee(f.blocks[d[1]]["t"])[0].qname.endswith("Default::default") for d in T.defs.get(l, []))]
+        if len(olds) != 1:
+            ctx.note("C18.10: the remembered state is not a ValidatorAddrs local initialised with Default (%d candidates) - not decided" % len(olds))
+            ctx.ob(R, "remembered state", True, "undecided shape (not reported)", f.loc())
+            continue
+        old = olds[0]
+        bad = []
+        n = 0
+        for d in T.defs.get(old, []):
+            if d[0] == "c":
+                continue
+            st = f.blocks[d[1]]["s"][d[2]]
+            if st["k"] != "assign":
+                continue
+            v = T.rvalue(st["r"])
+            vs = common.value_terms(f, T, v)
+            from_snapshot = any(x[0] == "call" and x[1].endswith("sync::changed") for u in vs for x in subterms(u))
+            inside = set(id(y) for u in vs for x in subterms(u) if x[0] == "call" and x[1].endswith("sync::changed") for y in subterms(x))
+            live = any(x[0] == "call" and (x[1].endswith("ValidatorAddrsWatch::current") or x[1].endswith("watch::Receiver::borrow") or x[1].endswith("::subscribe")) and id(x) not in inside for u in vs for x in subterms(u))
+            n += 1
+            if not from_snapshot or live:
+                bad.append(show(v)[:80])
+        ctx.ob(R, "remembered state := the snapshot the difference was computed from", not bad and n >= 1, "old = new (the value returned by sync::changed), %d assignment(s)" % n if not bad and n else
+               ("the state remembered as sent is assigned from %s, not from the snapshot whose difference was sent: announcements that arrive between the snapshot and this read are never pushed to this peer" % bad[:2]) if bad else "the remembered state is never updated", f.loc())
+        okm = any(c["q"].endswith("watch::Receiver::mark_changed") for c in T.calls())
+        ctx.ob(R, "first push is unconditional", okm, "the subscription is marked changed before the loop (the whole book is pushed to a new peer)" if okm else "the subscription is not marked changed: a new peer gets nothing until the next announcement", f.loc())
+
+
 def rule_get_newer(ctx):
     R = "C18.9"
     ctx.rule(R, "what a node pushes to a peer (ValidatorAddrs::get_newer(old)): an entry of the current book is sent exactly when the state last sent to that peer has no entry for the key or an older one (is_newer(current, old), strict) - sending less leaves peers on a stale address for good (nothing re-sends it), the comparison the other way round never propagates an update")
@@ -526,4 +568,4 @@ def rule_announcement_codec(ctx):
                    desc="the announcement travels unchanged: the decoders / encoders of NetAddress, its SocketAddr and timestamp, and of the signed envelope call only reviewed value-preserving conversions (tables/codec_api.json) - a decoder that normalises the address makes the receiver hash another message than the validator signed, so an authentic newer announcement fails verification, the whole batch is dropped and the node keeps dialling the old address")
 
 
-RULES = [("C18.9", rule_get_newer), ("C18.8", rule_announcement_codec), ("C18.1", rule_update_table), ("C18.2", rule_all_or_nothing), ("C18.3", rule_order), ("C18.4", rule_writers), ("C18.5", rule_handler), ("C18.7", rule_dial_address)]
+RULES = [("C18.10", rule_push_task), ("C18.9", rule_get_newer), ("C18.8", rule_announcement_codec), ("C18.1", rule_update_table), ("C18.2", rule_all_or_nothing), ("C18.3", rule_order), ("C18.4", rule_writers), ("C18.5", rule_handler), ("C18.7", rule_dial_address)]
